@@ -99,8 +99,19 @@ def gen_errorfree(draw):
         if draw(st.integers(0, 5)) == 0:
             sp["bx"] = "BX%d_%d_%s" % (sp["hap"], draw(st.integers(0, 2)), sp["sample"])
     c["read_specs"] += extra
-    if len(c["contigs"]) == 2 and draw(st.integers(0, 5)) == 0:
+    if len(c["contigs"]) == 2 and draw(st.integers(0, 3)) == 0:
         c["vcf_empty_contig"] = c["contigs"][draw(st.integers(0, 1))]["name"]
+    if len(c["contigs"]) == 2 and draw(st.integers(0, 2)) == 0:
+        # read names shared between contigs (mates of a discordant pair, repeated names): every contig is tagged on its own,
+        # an alignment is judged by the variants its name covers on its own contig
+        a_name, b_name = c["contigs"][0]["name"], c["contigs"][1]["name"]
+        on_a = [sp for sp in c["read_specs"] if sp["chrom"] == a_name and "pair" not in sp and not sp.get("flag_extra")]
+        on_b = [sp for sp in c["read_specs"] if sp["chrom"] == b_name and "pair" not in sp and not sp.get("flag_extra")]
+        sup_names = {sp["name"] for sp in c["read_specs"] if sp.get("flag_extra")}
+        for x, y in list(zip(on_a, on_b))[:draw(st.integers(1, 3))]:
+            if x["sample"] == y["sample"] and x["name"] not in sup_names and y["name"] not in sup_names:
+                y["name"] = x["name"]
+                c["shared_names"] = True
     c["unmapped"] = draw(st.integers(0, 2))
     c["unmapped_placed"] = draw(st.integers(0, 1))
     c["unmapped_stale"] = draw(st.booleans())
@@ -226,7 +237,7 @@ def run_tool(vcf, bam, out, ref, opts, reference=True, ploidy=2, hl=None):
                      regions=opts.get("regions"), ignore_linked_read=opts.get("ignore_linked_read", False),
                      given_samples=[opts["sample"]] if opts.get("sample") else None, ignore_read_groups=opts.get("ignore_read_groups", False),
                      tag_supplementary=opts.get("tag_supplementary", False), output_threads=opts.get("threads", 1), ploidy=ploidy,
-                     haplotag_list=hl)
+                     haplotag_list=hl, **({"linked_read_distance_cutoff": opts["cutoff"]} if opts.get("cutoff") is not None else {}))
 
 
 def in_regions(a, regions, names):
@@ -344,6 +355,8 @@ class ErrorFreePart:
                 if tags:
                     ctx.violation("haplotag:ignored-read-tagged", "alignment %s flag %d carries %r" % (a.query_name, a.flag, tags))
                 continue
+            if rs is not None:
+                rs = [x for x in rs if x.get("chrom") == a.reference_name] or None
             if rs is None or "hap" not in rs[0]:
                 continue
             sample = rs[0]["sample"]
@@ -368,7 +381,20 @@ class ErrorFreePart:
             sets = {sid for sid, _ in cov.values()}
             if tags:
                 if tags["PS"] not in sets:
-                    if not (rs[0]["spec"].get("bx") and not o["ignore_linked_read"]):
+                    bx = rs[0]["spec"].get("bx")
+                    if bx and not o["ignore_linked_read"]:
+                        # a read cloud is pooled per contig and sample: the set must be one that some read of the same
+                        # barcode covers on this contig
+                        cloud_sets = set()
+                        for x in reads:
+                            if x.get("spec", {}).get("bx") == bx and x.get("chrom") == chrom and not x["spec"].get("flag_extra", 0) & (256 | 2048):
+                                for vi, v in enumerate(case["variants"][chrom]):
+                                    if (chrom, vi) in truth.get(sample, {}) and G.coverage_class(x, v) == "full":
+                                        cloud_sets.add(truth[sample][(chrom, vi)][0])
+                        if tags["PS"] not in cloud_sets:
+                            ctx.violation("haplotag:cloud-phase-set", "read %s (barcode %s) on %s tagged with PS %r; reads of that barcode cover sets %r there" % (
+                                a.query_name, bx, chrom, tags["PS"], sorted(cloud_sets)))
+                    else:
                         ctx.violation("haplotag:phase-set", "read %s tagged with PS %r but covers phased variants of sets %r only" % (a.query_name, tags["PS"], sorted(sets)))
                     continue
                 order = next(od for sid, od in cov.values() if sid == tags["PS"])
@@ -409,6 +435,8 @@ class ErrorFreePart:
                 for a, b in zip(res, res2):
                     ta, tb = phase_tags(a), phase_tags(b)
                     rs = spec_by_name.get(a.query_name)
+                    if rs is not None:
+                        rs = [x for x in rs if x.get("chrom") == a.reference_name] or None
                     if rs is not None and not o["ignore_linked_read"] and any(x.get("spec", {}).get("bx") for x in rs):
                         # pooled read clouds are order dependent (several phase sets with equal scores); validity only
                         continue
@@ -448,6 +476,8 @@ class ErrorFreePart:
             ctx.label("regions")
         if case.get("vcf_empty_contig"):
             ctx.label("contig-without-variants")
+        if case.get("shared_names"):
+            ctx.label("read-names-shared-between-contigs")
 
 
 # ------------------------------------------------------------------ quality model
@@ -461,6 +491,14 @@ def gen_quality(draw):
     sets = assign_sets(draw, len(variants), 3)
     linked = draw(st.integers(0, 2)) == 0
     paired = draw(st.integers(0, 2)) == 0
+    # linked-read options: a distance cut-off small enough to separate reads of one barcode into several clouds, or the
+    # barcodes ignored altogether (pairs are left out then: the distance of a pair to another read is not modelled)
+    cutoff, ignore_bx = None, False
+    if linked:
+        cutoff = draw(st.sampled_from([None, None, 20, 60, 150]))
+        ignore_bx = draw(st.integers(0, 5)) == 0
+        if cutoff is not None:
+            paired = False
     reads = []
     for i in range(draw(st.integers(3, 14))):
         h = draw(st.integers(0, ploidy - 1))
@@ -488,7 +526,8 @@ def gen_quality(draw):
         # linked reads: barcodes shared by reads of different haplotypes (the cloud is scored as a whole)
         if linked and draw(st.integers(0, 1)) == 0:
             reads[-1]["bx"] = draw(st.sampled_from(["B0", "B1", "B2"]))
-    return {"ploidy": ploidy, "seq": seq, "variants": variants, "haps": haps, "sets": sets, "reads": reads}
+    return {"ploidy": ploidy, "seq": seq, "variants": variants, "haps": haps, "sets": sets, "reads": reads, "cutoff": cutoff,
+            "ignore_linked_read": ignore_bx}
 
 
 class QualityPart:
@@ -554,7 +593,8 @@ class QualityPart:
                 recs[-1]["mate"] = {"chrom": "chr1", "pos": other["start"]}
         bam = G.write_bam(gcase, recs, os.path.join(d, "q.bam"))
         out = os.path.join(d, "qt.bam")
-        run_tool(vcfgz, bam, out, None, {}, reference=False, ploidy=ploidy)
+        cutoff, ignore_bx = case.get("cutoff"), case.get("ignore_linked_read", False)
+        run_tool(vcfgz, bam, out, None, {"cutoff": cutoff, "ignore_linked_read": ignore_bx}, reference=False, ploidy=ploidy)
         res = {}
         with pysam.AlignmentFile(out, check_sq=False) as f:
             for a in f.fetch(until_eof=True):
@@ -586,26 +626,93 @@ class QualityPart:
             own_scores[r["name"]] = scores
             if r.get("mate"):
                 ctx.label("pair-" + r["mate"]["orientation"])
-        # a read cloud (same barcode; the whole contig lies within the default distance cut-off) is scored as one unit
+        # a read cloud is scored as one unit.  Cloud = reads of one barcode that carry variants and start within the distance
+        # cut-off of the cloud's first processed read.  That is independent of the processing order exactly when the
+        # single-linkage clusters (by start, threshold = cut-off) of a barcode have a diameter <= cut-off; barcodes for which
+        # this fails are not judged.  Default cut-off 50000 > contig: one cloud per barcode.
+        eff_cutoff = 50000 if cutoff is None else cutoff
+        unit_of, ambiguous_bx, members = {}, set(), {}
+        for r in case["reads"]:
+            unit_of[r["name"]] = ("read", r["name"])
+        if not ignore_bx:
+            for bx in sorted({r["bx"] for r in case["reads"] if r.get("bx")}):
+                carrying = sorted((r for r in case["reads"] if r.get("bx") == bx and own_scores[r["name"]]), key=lambda r: r["start"])
+                clusters = []
+                for r in carrying:
+                    if clusters and r["start"] - clusters[-1][-1]["start"] <= eff_cutoff:
+                        clusters[-1].append(r)
+                    else:
+                        clusters.append([r])
+                if any(c[-1]["start"] - c[0]["start"] > eff_cutoff for c in clusters):
+                    ambiguous_bx.add(bx)
+                    ctx.label("cloud-grouping-order-dependent (not judged)")
+                    continue
+                for ci, c in enumerate(clusters):
+                    members[(bx, ci)] = c
+                    for r in c:
+                        unit_of[r["name"]] = (bx, ci)
+                if len(clusters) > 1:
+                    ctx.label("barcode-split-into-%s-clouds" % (len(clusters) if len(clusters) < 3 else "3+"))
         unit_scores = {}
         for r in case["reads"]:
-            u = unit_scores.setdefault(r.get("bx") or r["name"], {})
+            u = unit_scores.setdefault(unit_of[r["name"]], {})
             for sid, sc in own_scores[r["name"]].items():
                 tot = u.setdefault(sid, [0] * ploidy)
                 for h in range(ploidy):
                     tot[h] += sc[h]
+
+        def unit_decision(scores):
+            """(HP, PS candidates) of a unit or None when it must stay untagged; 'any' when a tie between sets decides"""
+            if not scores:
+                return None
+            best_overall = max(max(v) for v in scores.values())
+            cands = [sid for sid, v in scores.items() if max(v) == best_overall]
+            out = set()
+            for sid in cands:
+                sc = sorted(scores[sid], reverse=True)
+                out.add((scores[sid].index(sc[0]) + 1, sid) if sc[0] != sc[1] else None)
+            return out
+        if ignore_bx:
+            ctx.label("ignore-linked-read")
+        if cutoff is not None:
+            ctx.label("small-distance-cutoff")
         for r in case["reads"]:
-            scores = unit_scores[r.get("bx") or r["name"]]
-            in_cloud = bool(r.get("bx")) and sum(1 for x in case["reads"] if x.get("bx") == r["bx"]) > 1
+            if r.get("bx") in ambiguous_bx and not ignore_bx:
+                continue
+            scores = unit_scores[unit_of[r["name"]]]
+            in_cloud = (not ignore_bx) and bool(r.get("bx")) and sum(1 for x in case["reads"] if x.get("bx") == r["bx"]) > 1
             tags = res.get(r["name"], {})
             if in_cloud:
                 ctx.label("read-in-cloud")
-                if not own_scores[r["name"]] and tags:
-                    # a barcode mate without variants inherits HP/PS, never PC
-                    if "PC" in tags:
-                        ctx.violation("quality:cloud:pc-on-variant-free-read", "read %s covers no phased heterozygous variant but carries %r" % (r["name"], tags))
+            if in_cloud and not own_scores[r["name"]]:
+                # a barcode mate without variants inherits HP/PS (never PC) of the first assigned cloud of its barcode whose
+                # first processed read starts within the cut-off; which member that is depends on the processing order, so:
+                # allowed = decisions of clouds with SOME member in reach, required when ALL members of an assigned cloud are in reach
+                allowed, required = set(), False
+                for u, ms in members.items():
+                    if u[0] != r["bx"]:
                         continue
-                    tags = dict(tags, PC=None)
+                    dec = unit_decision(unit_scores[u])
+                    assigned = {x for x in dec if x is not None} if dec else set()
+                    near = [abs(m["start"] - r["start"]) <= eff_cutoff for m in ms]
+                    if any(near):
+                        allowed |= assigned
+                    if all(near) and dec and None not in dec:
+                        required = True
+                if "PC" in tags:
+                    ctx.violation("quality:cloud:pc-on-variant-free-read", "read %s covers no phased heterozygous variant but carries %r" % (r["name"], tags))
+                elif tags and (tags.get("HP"), tags.get("PS")) not in allowed:
+                    ctx.violation("quality:cloud:inherited-tags", "variant-free read %s (start %d, barcode %s, cut-off %d) carries %r; clouds in reach decide %r" % (
+                        r["name"], r["start"], r["bx"], eff_cutoff, tags, sorted(allowed)))
+                elif not tags and required:
+                    ctx.violation("quality:cloud:not-inherited", "variant-free read %s (start %d, barcode %s, cut-off %d) is untagged although an assigned cloud lies within reach" % (
+                        r["name"], r["start"], r["bx"], eff_cutoff))
+                elif tags:
+                    ctx.label("variant-free-read-inherits")
+                    nt = True
+                elif members and not allowed:
+                    ctx.label("variant-free-read-out-of-reach-or-unassigned")
+                continue
             if not scores:
                 if tags:
                     ctx.violation("quality:tagged-without-variants", "read %s covers no phased heterozygous variant but carries %r" % (r["name"], tags))
